@@ -165,5 +165,34 @@ pub fn run_inputs(run: &mut Run, b: &Budget, nontrivial_rule: &str, oracle: Inpu
             oracle(&c.input(), c.ext, c.conv, st)
         },
     );
+    if run.failed() {
+        return;
+    }
+    // a fixed catalogue: documents that need several rare ingredients at once, under fixed configurations.
+    // It does not draw from any generator, so adding to it never changes what the parts above explore.
+    let cfgs: [(usize, u8); 4] = [(EXT_ALL, 1), (EXT_EMPTY, 0), (SAMPLED_EXTS[2], 1), (SAMPLED_EXTS[3], 1)];
+    run_indexed(
+        run,
+        "catalogue",
+        &format!("{} fixed documents (text with several fragments and multi-byte punctuation in components mode, ...) under all extensions, none and two sampled subsets; {nontrivial_rule}", CATALOGUE.len()),
+        (CATALOGUE.len() * cfgs.len()) as u64,
+        true,
+        |i| serde_json::to_value(InputCase { pieces: vec![CATALOGUE[i as usize / 4].to_string()], ext: cfgs[i as usize % 4].0, conv: cfgs[i as usize % 4].1 }).unwrap(),
+        |i, st| {
+            let (ext, conv) = cfgs[i as usize % 4];
+            counted(oracle, CATALOGUE[i as usize / 4], ext, conv, st)
+        },
+    );
     let _ = json!(null);
 }
+
+/// see the `catalogue` part of `run_inputs`
+pub const CATALOGUE: &[&str] = &[
+    // text ignored in components mode whose first letter comes after an escape, a comment or a CRLF soft break and
+    // after multi-byte punctuation
+    ">> [mode]: components\n→\\→→a @salt{}\n",
+    ">> [mode]: components\n[- c -]→é x @a{}",
+    ">> [mode]: components\n— -- c\n→ text @b{}",
+    ">> [mode]: components\r\n→\r\n→ a\r\n",
+    ">> [mode]: components\n…[- é -]…\\…b",
+];
